@@ -52,10 +52,6 @@ ObsMatches(o) ==
     /\ Len(o.revs) = Cardinality(DOMAIN st'.revs)
     /\ \A i \in DOMAIN o.revs : RevMatches(o.revs[i])
 
-\* informational (separate configuration): the changes that survive in the real history are the
-\* ones the model applied
-SurvivorsMatch(o) == ToSet(o.survivors) = {Root} \cup {i \in DOMAIN log : log[i].out = "applied"}
-
 TInit == Init /\ l = 1
 
 TNext ==
